@@ -50,6 +50,8 @@ def scenarios(prop, tier, seed=0):
                    oracles=BASE + ('quiescent_complete',)))
         L.append(S('c03_p1_desync_try', [T('A', ('desync', 0)), T('B', ('try_sync', 0))], pool_max=1, R=3, B=14,
                    oracles=BASE + ('quiescent_complete',)))
+        L.append(S('c03_p1_stale_entry', [T('A', ('desync', 0, GATE)), T('B', ('desync', 1), ('sync', 1), ('desync', 2)), T('W', ('open_gate', 0))], pool_max=1, queues=3, R=3, B=16,
+                   oracles=BASE + ('quiescent_complete',)))
         if not q:
             L.append(S('c03_p1_desync_desync_sync', [T('A', ('desync', 0), ('desync', 0)), T('B', ('sync', 0))], pool_max=1, R=3, B=16,
                        oracles=BASE + ('quiescent_complete', 'results')))
@@ -64,6 +66,8 @@ def scenarios(prop, tier, seed=0):
                    oracles=BASE + ('results', 'deadlock')))
         L.append(S('c04_p1_gate_desync_sync', [T('A', ('desync', 0, GATE)), T('B', ('sync', 0)), T('W', ('open_gate', 0))],
                    pool_max=1, R=3, B=14, oracles=BASE + ('results', 'deadlock')))
+        L.append(S('c04_p1_fut_sync_busy_pool', [T('A', ('future_desync', 0, {'fut': ('gate', 0), 'as': 'f'}), ('detach', 'f'), ('desync', 1, {'acts': ['enter', ('gate', 1), 'exit']})), T('B', ('sync', 0)), T('W', ('open_gate', 0))],
+                   pool_max=1, queues=2, R=3, B=16, oracles=BASE + ('results', 'deadlock')))
         if not q:
             L.append(S('c04_p1_sync_sync', [T('A', ('sync', 0)), T('B', ('sync', 0)), T('C', ('desync', 0))], pool_max=1, R=3, B=14,
                        oracles=BASE + ('results', 'deadlock')))
@@ -73,6 +77,7 @@ def scenarios(prop, tier, seed=0):
         L.append(S('c01_p1_desync_sync', [T('A', ('desync', 0)), T('B', ('sync', 0))], pool_max=1, R=3, B=14, oracles=BASE))
         L.append(S('c01_p1_desync_try', [T('A', ('desync', 0)), T('B', ('try_sync', 0))], pool_max=1, R=3, B=14, oracles=BASE))
         L.append(S('c01_p0_sync_sync_try', [T('A', ('sync', 0)), T('B', ('sync', 0)), T('C', ('try_sync', 0))], pool_max=0, R=3, B=14, oracles=BASE))
+        L.append(S('c01_p0_fut_sync_sync', [T('A', ('future_desync', 0, {'fut': ('gate', 0), 'as': 'f'}), ('detach', 'f'), ('sync', 0)), T('B', ('sync', 0)), T('W', ('open_gate', 0))], pool_max=0, R=3, B=16, oracles=BASE))
         if not q:
             L.append(S('c01_p1_desync_sync_try', [T('A', ('desync', 0)), T('B', ('sync', 0)), T('C', ('try_sync', 0))], pool_max=1, R=3, B=14, oracles=BASE))
             L.append(S('c01_p1_desync2_sync', [T('A', ('desync', 0), ('desync', 0)), T('B', ('sync', 0))], pool_max=1, R=3, B=16, oracles=BASE))
@@ -82,11 +87,14 @@ def scenarios(prop, tier, seed=0):
         L.append(S('c02_p1_desync_desync', [T('A', ('desync', 0), ('desync', 0))], pool_max=1, R=3, B=14, oracles=BASE + ('order',)))
         L.append(S('c02_p0_sync_desync_sync', [T('A', ('sync', 0)), T('B', ('desync', 0), ('sync', 0))], pool_max=0, R=3, B=14, oracles=BASE + ('order',)))
         L.append(S('c02_p1_desync_sync', [T('A', ('desync', 0)), T('B', ('sync', 0))], pool_max=1, R=3, B=14, oracles=BASE + ('order',)))
+        L.append(S('c02_p1_fut_desync', [T('A', ('future_desync', 0, {'fut': ('gate', 0), 'as': 'f'}), ('detach', 'f'), ('desync', 0)), T('W', ('open_gate', 0))], pool_max=1, R=3, B=16, oracles=BASE + ('order',)))
         if not q:
             L.append(S('c02_p1_desync_desync_sync', [T('A', ('desync', 0), ('desync', 0)), T('B', ('sync', 0))], pool_max=1, R=3, B=16, oracles=BASE + ('order',)))
             L.append(S('c02_p1_desync_try_sync', [T('A', ('desync', 0), ('try_sync', 0)), T('B', ('sync', 0))], pool_max=1, R=3, B=16, oracles=BASE + ('order',)))
     elif prop == 'C10':
         L.append(S('c10_p2_gate_other', [T('A', ('desync', 0, GATE)), T('B', ('desync', 1))], pool_max=2, queues=2, R=(2 if q else 3), B=16,
+                   oracles=BASE + ('independent',)))
+        L.append(S('c10_p2_stale_entry', [T('A', ('desync', 0, GATE)), T('B', ('desync', 1), ('sync', 1), ('desync', 2))], pool_max=2, queues=3, R=(2 if q else 3), B=18,
                    oracles=BASE + ('independent',)))
         if not q:
             L.append(S('c10_p2_gate_sync_other', [T('A', ('desync', 0, GATE)), T('B', ('sync', 0)), T('C', ('desync', 1))], pool_max=2, queues=2, R=3, B=14,
@@ -104,7 +112,7 @@ def scenarios(prop, tier, seed=0):
             ths = [T('A', ('future_desync', 0, {'fut': ('gate', 0), 'as': 'f'}), ('block_on', 'f')), T('W', ('open_gate', 0))]
             L.append(S('c06_p%d_poll_drain' % P, ths, pool_max=P, R=(3 if (P == 0 or not q) else 2), B=18, oracles=BASE + ('deadlock', 'fut_results')))
         L.append(S('c06_p1_pool_runner', [T('A', ('future_desync', 0, {'fut': ('gate', 0), 'as': 'f'}), ('detach', 'f'), ('desync', 0)), T('W', ('open_gate', 0))],
-                   pool_max=1, R=3, B=16, oracles=BASE + ('deadlock', 'quiescent_complete')))
+                   pool_max=1, R=3, B=16, oracles=BASE + ('deadlock', 'quiescent_complete', 'order')))
         L.append(S('c06_p0_sync_runner', [T('A', ('future_desync', 0, {'fut': ('gate', 0), 'as': 'f'}), ('detach', 'f'), ('sync', 0)), T('W', ('open_gate', 0))],
                    pool_max=0, R=3, B=16, oracles=BASE + ('deadlock', 'results')))
     elif prop == 'C07':
@@ -116,11 +124,15 @@ def scenarios(prop, tier, seed=0):
                    oracles=BASE + ('deadlock', 'fut_results')))
         L.append(S('c07_p1_detach', [T('A', ('future_desync', 0, {'fut': 'ready', 'as': 'f'}), ('detach', 'f'))], pool_max=1, R=3, B=16,
                    oracles=BASE + ('deadlock', 'quiescent_complete')))
+        L.append(S('c07_p1_poll_detach', [T('A', ('future_desync', 0, {'fut': ('gate', 0), 'as': 'f'}), ('poll', 'f'), ('detach', 'f')), T('W', ('open_gate', 0))], pool_max=1, R=3, B=18,
+                   oracles=BASE + ('deadlock', 'quiescent_complete')))
     elif prop == 'C13':
         L.append(S('c13_p1_suspend_resume', [T('A', ('desync', 0), ('suspend', 0, {'as': 's'}), ('desync', 0), ('block_on', 's'), ('resume', 's', 'resume'))],
                    pool_max=1, R=3, B=18, oracles=BASE + ('deadlock', 'suspend', 'quiescent_complete')))
         L.append(S('c13_p1_suspend_drop', [T('A', ('suspend', 0, {'as': 's'}), ('desync', 0), ('block_on', 's'), ('resume', 's', 'drop'))],
                    pool_max=1, R=3, B=18, oracles=BASE + ('deadlock', 'suspend', 'quiescent_complete')))
+        L.append(S('c13_p0_suspend_resume_sync', [T('A', ('suspend', 0, {'as': 's'}), ('block_on', 's'), ('resume', 's', 'resume'), ('sync', 0))], pool_max=0, R=2, B=26,
+                   oracles=BASE + ('deadlock', 'suspend', 'results')))
     elif prop == 'C08':
         L.append(S('c08_p1_await', [T('A', ('future_sync', 0, {'fut': 'ready', 'as': 'f'}), ('block_on', 'f'), ('desync', 0))], pool_max=1, R=3, B=18,
                    oracles=BASE + ('deadlock', 'fut_results', 'quiescent_complete')))
